@@ -31,9 +31,11 @@ package lifo
 import (
 	"fmt"
 	"math/rand"
+	"runtime"
 	"strconv"
 	"strings"
 	"sync"
+	"sync/atomic"
 	"time"
 
 	"github.com/aperturerobotics/util/cqueue"
@@ -151,12 +153,13 @@ func exec(script []string, opt comp.Options) comp.Result {
 	q := &cqueue.AtomicLIFO[int]{}
 	workers := make([]*worker, nWorkers)
 	handed := make([]int, nWorkers)
-	startCh := make(chan struct{})
+	// the workers spin on the flag (a channel wake-up takes longer than a whole work list)
+	var startFlag atomic.Bool
 	started := false
 	start := func() {
 		if !started {
 			started = true
-			close(startCh)
+			startFlag.Store(true)
 		}
 	}
 	if len(script) == 0 || strings.TrimSpace(script[0]) != "hold" {
@@ -171,7 +174,11 @@ func exec(script []string, opt comp.Options) comp.Result {
 		wg.Add(1)
 		go func() {
 			defer wg.Done()
-			<-startCh
+			for spins := 0; !startFlag.Load(); spins++ {
+				if spins%64 == 63 {
+					runtime.Gosched()
+				}
+			}
 			for i := 0; ; i++ {
 				o, ok := w.next(i)
 				if !ok {
@@ -324,11 +331,16 @@ func exec(script []string, opt comp.Options) comp.Result {
 	return comp.Result{History: lines, Tags: tags.List()}
 }
 
+// gen keeps the scenarios small on purpose: the order of concurrent pushes stays ambiguous for the
+// model until pops reveal it, and every ambiguous group multiplies the state set of the subset
+// construction. So: few pushes, pops at least as likely as pushes, occasional barriers.
 func gen(rng *rand.Rand, tier string) []string {
 	nw := 2 + rng.Intn(3) // 2..4 workers
-	maxOps := 14 + rng.Intn(10)
+	maxOps := 8 + rng.Intn(9)
+	maxPush := 4 + rng.Intn(3)
 	if tier == "thorough" {
-		maxOps = 16 + rng.Intn(14)
+		maxOps = 8 + rng.Intn(12)
+		maxPush = 4 + rng.Intn(4)
 	}
 	perWorker := 12
 	if maxOps > nw*perWorker-2 {
@@ -342,7 +354,7 @@ func gen(rng *rand.Rand, tier string) []string {
 	nextV := 1
 	ngates := 0
 	var openLater []int
-	pPush := 35 + rng.Intn(40) // percentage of pushes
+	pPush := 30 + rng.Intn(30) // percentage of pushes
 	burst := rng.Intn(3) == 0  // hand everything over at once
 	for n := 0; n < maxOps && len(out) < 120; {
 		r := rng.Intn(100)
@@ -354,7 +366,7 @@ func gen(rng *rand.Rand, tier string) []string {
 			}
 			counts[k]++
 			n++
-			if rng.Intn(100) < pPush {
+			if rng.Intn(100) < pPush && nextV <= maxPush {
 				out = append(out, fmt.Sprintf("go %d push %d", k, nextV))
 				nextV++
 			} else {
@@ -365,20 +377,20 @@ func gen(rng *rand.Rand, tier string) []string {
 			if rng.Intn(2) == 0 {
 				kind = "pop"
 			}
-			out = append(out, fmt.Sprintf("gate %s %d", kind, 1+rng.Intn(4)))
+			out = append(out, fmt.Sprintf("gate %s %d", kind, 1+rng.Intn(3)))
 			openLater = append(openLater, ngates)
 			ngates++
 		case r < 84 && len(openLater) > 0:
 			g := openLater[0]
 			openLater = openLater[1:]
 			out = append(out, fmt.Sprintf("hit %d", g), "pause", fmt.Sprintf("open %d", g))
-		case r < 90 && !burst:
+		case r < 89 && !burst:
 			out = append(out, "pause")
-		case r < 94 && !burst && len(openLater) == 0:
+		case r < 93 && !burst && len(openLater) == 0:
 			out = append(out, fmt.Sprintf("wait %d", rng.Intn(nw)))
 		case r < 96 && !burst && len(openLater) == 0:
 			out = append(out, "waitall")
-		default:
+		case !burst:
 			out = append(out, "start")
 		}
 	}
